@@ -27,7 +27,7 @@ TITLE = 'METAL = inlining'
 LEVEL = 'exploration'
 SHARDS = {'quick': 16, 'thorough': 16}
 FLOOR = {'quick': 800, 'thorough': 10000}
-REQUIRED_MONITORS = {'pairs-compared': 2000, 'uses-with-fillers': 800, 'extend-chains': 150, 'switch-boundary-compared': 100}
+REQUIRED_MONITORS = {'pairs-compared': 2000, 'uses-with-fillers': 800, 'extend-chains': 150, 'switch-boundary-compared': 100, 'history-uses-compared': 100}
 RULE = ('a case = (library of 1..3 macros with 0..3 define-slot regions each - repeated slot names allowed, nested uses of '
         'earlier macros inside bodies, extend-macro chains up to length 3 - , caller with 1..3 uses filling random subsets of '
         'slots plus unknown names, uses inside tal:repeat / tal:define, two consecutive uses in one scope, local and global '
@@ -377,6 +377,89 @@ def run(ctx):
     finally:
         shutil.rmtree(tmp, ignore_errors=True)
     layer_switch_across_boundaries(ctx, 12 if ctx.quick else 100)
+    layer_redefinition_histories(ctx, 10 if ctx.quick else 120)
+
+
+def layer_redefinition_histories(ctx, n):
+    """METAL = inlining over a HISTORY: the template that defines the macro is rewritten (write(), or its file
+    edited under auto_reload) between uses; every use must equal inlining the macro as it is defined NOW
+    (and a macro that is no longer defined cannot be used)."""
+    from chameleon import PageTemplate, PageTemplateFile
+    rng = ctx.rng
+    tmp = tempfile.mkdtemp(prefix='c09h_')
+
+    def libsrc(k, name):
+        return '<lib><m metal:define-macro="%s">V%d[<i metal:define-slot="s">d%d</i>]${f(%d)}</m></lib>' % (name, k, k, k)
+    try:
+        for case in range(n):
+            kind = rng.choice(['object', 'file', 'self'])
+            version, name = 0, 'm'
+            mtime = 1_600_000_000
+            if kind == 'object':
+                lib = PageTemplate(libsrc(0, 'm'))
+            elif kind == 'file':
+                fn = os.path.join(tmp, 'lib%d.pt' % case)
+                with open(fn, 'w') as fh:
+                    fh.write(libsrc(0, 'm'))
+                os.utime(fn, (mtime, mtime))
+                lib = PageTemplateFile(fn, auto_reload=True)
+            else:
+                lib = None
+            callsrc = '<x><u metal:use-macro="%s.macros[\'m\']"><b metal:fill-slot="s">F${f(99)}</b></u></x>'
+            if kind == 'self':
+                caller = PageTemplate(libsrc(0, 'm') + callsrc % 'template')
+            else:
+                caller = PageTemplate(callsrc % 'lib')
+            hist = []
+            for step in range(rng.randint(3, 8)):
+                op = rng.choice(['render', 'render', 'rewrite', 'rename', 'lookup'])
+                if op in ('rewrite', 'rename'):
+                    version += 1
+                    name = 'm' if op == 'rewrite' else rng.choice(['m', 'other'])
+                    mtime += 10
+                    if kind == 'object':
+                        lib.write(libsrc(version, name))
+                    elif kind == 'file':
+                        with open(fn, 'w') as fh:
+                            fh.write(libsrc(version, name))
+                        os.utime(fn, (mtime, mtime))
+                    else:
+                        caller.write(libsrc(version, name) + callsrc % 'template')
+                    hist.append('%s->v%d:%s' % (op, version, name))
+                    continue
+                if op == 'lookup':
+                    try:
+                        (caller if kind == 'self' else lib).macros['m']
+                    except KeyError:
+                        pass
+                    hist.append('lookup')
+                    continue
+                log = []
+
+                def f(i):
+                    log.append(i)
+                    return 'r%d' % i
+                try:
+                    out = caller(f=f, lib=lib)
+                except Exception as e:
+                    out = 'RAISED %s' % type(e).__name__
+                pre = ('<lib><m>V%d[<i>d%d</i>]r%d</m></lib>' % (version, version, version)) if kind == 'self' else ''
+                prelog = [version] if kind == 'self' else []
+                if name == 'm':
+                    want = (pre + '<x><m>V%d[<b>Fr99</b>]r%d</m></x>' % (version, version), prelog + [99, version])
+                else:
+                    want = ('RAISED KeyError', prelog)
+                hist.append('render')
+                ctx.mon('history-uses-compared')
+                ctx.case(key=('redef-history', kind, tuple(h.split('->')[0] for h in hist)), nontrivial=version > 0,
+                         sample={'history': list(hist), 'rendered': out} if case < 2 else None)
+                if (out, log) != want:
+                    ctx.violation('macro-use-after-redefinition-differs',
+                                  'defining template (%s) history %r: use of macro m rendered %r (log %r), inlining its current '
+                                  'definition gives %r' % (kind, hist, out, log, want), {'kind': 'redef', 'placement': 'history'})
+                    break
+    finally:
+        shutil.rmtree(tmp, ignore_errors=True)
 
 
 def layer_switch_across_boundaries(ctx, n):
@@ -413,6 +496,13 @@ def layer_switch_across_boundaries(ctx, n):
 
 
 def replay(data):
+    if data.get('kind') == 'redef':
+        from vlib import shard, state
+        ctx = shard.Ctx(PROP, 'quick', 0, 0, 1)
+        state.CTX = ctx
+        monitors.install(ctx, tokalg=False)
+        layer_redefinition_histories(ctx, 60)
+        return bool(ctx.violations), '\n'.join(v['what'] for v in ctx.violations) or 'all redefinition histories agree with inlining'
     env = data['env']
     if data['placement'] == 'other':
         got = render(data['caller'], env, lib=data['lib'])
